@@ -1538,3 +1538,21 @@ TABLE["C01"] += [
       (IP + "declaration.py", "            Optional(COLON + Typename.rule(\"parent_type\")) +", "            Optional(COLON + (TemplatedType.rule ^ Typename.rule)(\"parent_type\")) +"),
       (IP + "declaration.py", "        if parent_type:\n            self.parent_type = parent_type\n", "        if parent_type:\n            parent_type = parent_type[0]\n            if isinstance(parent_type, TemplatedType):\n                parent_type = parent_type.typename\n            self.parent_type = parent_type\n")),
 ]
+
+# round 6: package paths by evaluation (C10 T3 = C15 X6), positions in the list itself (C13 P7 = C02 S13), docstring literal (C09 W11), depth-relative guards (C03 A3)
+_ENUM_PATH = "                    module = \"\".join([\n                        '+' + x + '/' for x in namespace.full_namespaces()[1:]\n                    ])[:-1]\n"
+for _p, _r in (("C10", "T3"), ("C15", "X6")):
+    TABLE[_p] += [
+        B("namespace-enum-filed-under-the-leaf-package", {_r}, (MW, _ENUM_PATH, "                    module = \"/\".join('+' + x for x in namespace.full_namespaces()[-1:])\n")),
+        N("namespace-enum-path-joined-with-slash", (MW, _ENUM_PATH, "                    module = \"/\".join('+' + x for x in namespace.full_namespaces()[1:])\n")),
+    ]
+_SCOPED = "    for idx, template in enumerate(template_typenames):\n"
+for _p, _r in (("C13", "P7"), ("C02", "S13")):
+    TABLE[_p] += [
+        B("scoped-parameter-position-in-a-sorted-copy", {_r}, (HP, _SCOPED, "    for idx, template in enumerate(sorted(template_typenames, key=len, reverse=True)):\n")),
+        N("scoped-parameter-loop-over-a-list-copy", (HP, _SCOPED, "    for idx, template in enumerate(list(template_typenames)):\n")),
+    ]
+TABLE["C09"] += [
+    B("docstring-literal-as-json", {"W11"},
+      (PW, "        body = re.sub(r'\\\\(x[0-9a-f]{2}|.)', bounded, repr(text)[1:-1])\n        return '\"' + body.replace('\"', r'\\\"') + '\"'\n", "        import json\n        return json.dumps(text)\n")),
+]
